@@ -450,8 +450,20 @@ def check_C06(tier, nproc=None):
             if d[:1] == b'"':
                 c.add(Job('vH_C06_unescape', [('tmpl', 'd', t), ('int', 0), ('int', 0)], weight=40, opts={'nsamples': 0}))
                 nwin += 1
+    # string tokens beyond 1 KiB (thorough: 4 KiB): a free byte around the start, the 1024 (4096) mark and the end, with and
+    # without an early escape (which switches the readers to their copying path)
+    big = [(1100, [0, 1, 7, 8, 9] + list(range(1014, 1034)) + list(range(1092, 1100)))]
+    if tier != 'quick':
+        big.append((4200, [0, 8] + list(range(4086, 4106)) + list(range(4190, 4200))))
+    nbig = 0
+    for total, poss in big:
+        for pre in (b'"', b'"\\n'):
+            for t in sliding_templates(pre, b'"', total, poss, 1):
+                c.add(Job('vH_C06_bytes', [('tmpl', 'd', t), ('int', 1), ('int', 3)], weight=total, opts={'nsamples': 0}))
+                c.add(Job('vH_C06_string', [('tmpl', 'd', t), ('bool', True)], weight=total, opts={'nsamples': 0}))
+                nbig += 2
     c.bounds = {'N': N, 'templates': [''.join(('?' * x) if isinstance(x, int) else x.decode() for x in t) for t in T],
-                'long_string_windows': LONG_WINDOW_BOUND % nwin,
+                'long_string_windows': LONG_WINDOW_BOUND % nwin, 'kilobyte_strings': '%d jobs: %s-byte string tokens with a free byte near the start, the power-of-two mark and the end' % (nbig, [b[0] for b in big]),
                 'destination': 'prefix 0..2 arbitrary bytes, spare capacity 0,1,3,4,n,n+4'}
     c.must_reach = ['C06.bytes-compared', 'C06.bytes-ok', 'C06.string-compared', 'C06.unescape-wellformed']
     _std(c)
